@@ -131,98 +131,164 @@ func emVMEffects(c *Ctx) map[string]vmEffect {
 	p := c.Pkg("homescript/runtime")
 	info := p.TypesInfo
 	fd := emVMDispatch(c)
-	// role discovery: push = *Core method appending to the Stack field; pop = method re-slicing it
-	var push, pop []*types.Func
+	cp := c.Pkg("homescript/compiler")
+	opT := cp.Types.Scope().Lookup("Opcode").Type()
+	// ---- roles: the operand stack's push / pop primitives (by shape, not by name) ----
+	// push: a Core method with one value-cell parameter that appends it to a slice-of-cells field;
+	// pop : a nullary Core method returning a cell that re-slices the same field.
+	decl := map[*types.Func]*ast.FuncDecl{}
 	for _, m := range AllFuncDecls(p) {
+		if fn, ok := info.Defs[m.Name].(*types.Func); ok && m.Body != nil {
+			decl[fn] = m
+		}
+	}
+	isCellT := func(t types.Type) bool {
+		pt, ok := t.(*types.Pointer)
+		if !ok {
+			return false
+		}
+		n, ok := pt.Elem().(*types.Named)
+		return ok && n.Obj().Name() == "Value" && types.IsInterface(n)
+	}
+	fieldOfRecv := func(m *ast.FuncDecl, e ast.Expr) *types.Var {
+		sel, ok := ast.Unparen(e).(*ast.SelectorExpr)
+		if !ok {
+			return nil
+		}
+		fv, _ := info.Uses[sel.Sel].(*types.Var)
+		if fv == nil || !fv.IsField() {
+			return nil
+		}
+		if sl, ok := fv.Type().Underlying().(*types.Slice); !ok || !isCellT(sl.Elem()) {
+			return nil
+		}
+		return fv
+	}
+	push, pop := map[*types.Func]bool{}, map[*types.Func]bool{}
+	var stackField *types.Var
+	for fn, m := range decl {
 		if m.Recv == nil || recvTypeName(m.Recv.List[0].Type) != "Core" {
 			continue
 		}
-		isPush, isPop := false, false
+		sig := fn.Type().(*types.Signature)
+		isPushSig := sig.Params().Len() == 1 && isCellT(sig.Params().At(0).Type()) && sig.Results().Len() == 0
+		isPopSig := sig.Params().Len() == 0 && sig.Results().Len() == 1 && isCellT(sig.Results().At(0).Type())
+		if !isPushSig && !isPopSig {
+			continue
+		}
 		ast.Inspect(m.Body, func(n ast.Node) bool {
 			as, ok := n.(*ast.AssignStmt)
 			if !ok || len(as.Lhs) != 1 || len(as.Rhs) != 1 {
 				return true
 			}
-			sel, ok := as.Lhs[0].(*ast.SelectorExpr)
-			if !ok || sel.Sel.Name != "Stack" {
+			fv := fieldOfRecv(m, as.Lhs[0])
+			if fv == nil {
 				return true
 			}
-			switch r := as.Rhs[0].(type) {
+			switch r := ast.Unparen(as.Rhs[0]).(type) {
 			case *ast.CallExpr:
-				if id, ok := r.Fun.(*ast.Ident); ok && id.Name == "append" {
-					isPush = true
+				if id, ok := r.Fun.(*ast.Ident); ok && id.Name == "append" && isPushSig {
+					push[fn] = true
+					stackField = fv
 				}
 			case *ast.SliceExpr:
-				isPop = true
+				if isPopSig {
+					pop[fn] = true
+					stackField = fv
+				}
 			}
 			return true
 		})
-		fn, _ := info.Defs[m.Name].(*types.Func)
-		if isPush {
-			push = append(push, fn)
-		}
-		if isPop {
-			pop = append(pop, fn)
-		}
 	}
-	if len(push) == 0 || len(pop) == 0 {
-		fatalf("anchor unresolved: the VM's operand-stack push/pop methods")
+	if len(push) == 0 || len(pop) == 0 || stackField == nil {
+		fatalf("anchor unresolved: the VM's operand-stack push/pop primitives (Core methods appending to / re-slicing a slice of value cells)")
 	}
-	isIn := func(fn *types.Func, set []*types.Func) bool {
-		for _, f := range set {
-			if f == fn {
-				return true
-			}
-		}
-		return false
-	}
-	var sw *ast.SwitchStmt
-	ast.Inspect(fd.Body, func(n ast.Node) bool {
-		if s, ok := n.(*ast.SwitchStmt); ok && sw == nil && s.Tag != nil {
-			if call, ok := ast.Unparen(s.Tag).(*ast.CallExpr); ok {
-				if fn := CalleeOf(info, call); fn != nil && fn.Name() == "Opcode" {
-					sw = s
-				}
-			}
-		}
-		return sw == nil
-	})
-	if sw == nil {
-		fatalf("anchor unresolved: runInstruction has no switch over instruction.Opcode()")
-	}
+	// ---- per-function summaries: the set of net effects over the normally completing paths ----
 	type st struct {
-		h, loop       int
+		h, loop      int
 		pops, pushes int
 	}
-	out := map[string]vmEffect{}
-	for _, cl := range sw.Body.List {
-		cc := cl.(*ast.CaseClause)
-		if cc.List == nil {
-			continue
+	type summ struct {
+		variants []st
+		bad      string
+	}
+	memo := map[*types.Func]*summ{}
+	inProgress := map[*types.Func]bool{}
+	var summarise func(fn *types.Func, depth int) *summ
+	var walkBody func(body *ast.BlockStmt, recv types.Object, depth int) *summ
+	recvOf := func(m *ast.FuncDecl) types.Object {
+		if m.Recv != nil && len(m.Recv.List[0].Names) > 0 {
+			return info.Defs[m.Recv.List[0].Names[0]]
 		}
+		return nil
+	}
+	apply := func(s *st, call *ast.CallExpr, recv types.Object, depth int) {
+		fn := CalleeOf(info, call)
+		if fn == nil {
+			return
+		}
+		// only operations on THIS core's stack count: the call's receiver is the walked function's receiver
+		onSelf := false
+		if sel, ok := ast.Unparen(call.Fun).(*ast.SelectorExpr); ok {
+			if id, ok := ast.Unparen(sel.X).(*ast.Ident); ok && recv != nil && info.Uses[id] == recv {
+				onSelf = true
+			}
+		}
+		if !onSelf {
+			return
+		}
+		switch {
+		case push[fn]:
+			s.h++
+			s.pushes++
+		case pop[fn]:
+			s.h--
+			s.pops++
+		default:
+			if d := decl[fn]; d != nil && depth < 5 {
+				if sm := summarise(fn, depth+1); sm != nil && sm.bad == "" && len(sm.variants) >= 1 {
+					// a helper with one effect on all its normal paths (the usual case); several: take the first and
+					// let the caller's variant set record the others through emHelperVariants
+					v := sm.variants[0]
+					s.h += v.h
+					s.pops += v.pops
+					s.pushes += v.pushes
+					if v.loop != 0 {
+						s.loop = v.loop
+					}
+				}
+			}
+		}
+	}
+	// direct writes to the stack field outside the primitives: re-slicing to a shorter length etc. are not modelled
+	walkBody = func(body *ast.BlockStmt, recv types.Object, depth int) *summ {
+		out := &summ{}
 		count := func(s *st, n ast.Node) {
-			ast.Inspect(n, func(m ast.Node) bool {
-				if _, ok := m.(*ast.FuncLit); ok {
-					return false
-				}
-				if call, ok := m.(*ast.CallExpr); ok {
-					fn := CalleeOf(info, call)
-					if isIn(fn, push) {
-						s.h++
-						s.pushes++
+			// post-order: arguments before the call
+			var visit func(m ast.Node)
+			visit = func(m ast.Node) {
+				ast.Inspect(m, func(k ast.Node) bool {
+					switch x := k.(type) {
+					case *ast.FuncLit:
+						return false
+					case *ast.CallExpr:
+						for _, a := range x.Args {
+							visit(a)
+						}
+						if sel, ok := ast.Unparen(x.Fun).(*ast.SelectorExpr); ok {
+							visit(sel.X)
+						}
+						apply(s, x, recv, depth)
+						return false
 					}
-					if isIn(fn, pop) {
-						s.h--
-						s.pops++
-					}
-				}
-				return true
-			})
+					return true
+				})
+			}
+			visit(n)
 		}
-		var results []st
 		w := &Walker[*st]{
 			Clone:   func(s *st) *st { c := *s; return &c },
-			IsPanic: func(s ast.Stmt) bool { return IsPanicCall(info, s) },
+			IsPanic: func(s ast.Stmt) bool { return IsPanicCall(info, s) || emAlwaysPanics(info, decl, s) },
 			OnStmt: func(s *st, stmt ast.Stmt) (*st, bool) {
 				if r, ok := stmt.(*ast.ReturnStmt); ok {
 					for _, e := range r.Results {
@@ -237,14 +303,12 @@ func emVMEffects(c *Ctx) map[string]vmEffect {
 				count(s, cond)
 				return s, true
 			},
-			OnCase: func(s *st, sw *ast.SwitchStmt, vals, others []ast.Expr) (*st, bool) {
-				return s, true
-			},
+			OnCase:  func(s *st, sw *ast.SwitchStmt, vals, others []ast.Expr) (*st, bool) { return s, true },
+			OnDefer: func(s *st, d *ast.DeferStmt) (*st, bool) { return s, true },
 			LoopSummary: func(loop ast.Stmt, before *st, ends []*st) (*st, bool) {
 				post := *before
 				for _, e := range ends {
-					d := e.h - before.h
-					if d != 0 {
+					if d := e.h - before.h; d != 0 {
 						post.loop = d
 					}
 				}
@@ -256,19 +320,132 @@ func emVMEffects(c *Ctx) map[string]vmEffect {
 			case cPanic:
 				return
 			case cReturn:
-				if len(o.ret.Results) == 1 {
-					if id, ok := ast.Unparen(o.ret.Results[0]).(*ast.Ident); !ok || id.Name != "nil" {
-						return // interrupt path
+				// a return carrying a non-nil interrupt / error as its LAST result is not a normal completion
+				if n := len(o.ret.Results); n >= 1 {
+					last := ast.Unparen(o.ret.Results[n-1])
+					t := info.TypeOf(last)
+					if t != nil {
+						if pt, ok := t.(*types.Pointer); ok {
+							if nm, ok := pt.Elem().(*types.Named); ok && strings.Contains(nm.Obj().Name(), "Interrupt") {
+								if id, ok := last.(*ast.Ident); !ok || id.Name != "nil" {
+									return
+								}
+							}
+						}
 					}
 				}
 			}
-			results = append(results, *s)
+			// deferred calls run at exit
+			for _, d := range w.PendingDefers() {
+				count(s, d.Call)
+			}
+			out.variants = append(out.variants, *s)
 		}
-		// count the switch tag-independent part: walk the clause body
-		w.Run(&ast.BlockStmt{List: cc.Body}, &st{})
+		w.Run(body, &st{})
+		if w.Overflow || len(w.Unsupported) > 0 {
+			out.bad = "path enumeration overflow / unsupported control flow"
+		}
+		return out
+	}
+	summarise = func(fn *types.Func, depth int) *summ {
+		if sm, ok := memo[fn]; ok {
+			return sm
+		}
+		if inProgress[fn] {
+			return nil // recursion: not summarised
+		}
+		inProgress[fn] = true
+		sm := walkBody(decl[fn].Body, recvOf(decl[fn]), depth)
+		inProgress[fn] = false
+		// dedup
+		seen := map[st]bool{}
+		var uniq []st
+		for _, v := range sm.variants {
+			k := st{h: v.h, loop: v.loop}
+			if !seen[k] {
+				seen[k] = true
+				uniq = append(uniq, v)
+			}
+		}
+		sm.variants = uniq
+		memo[fn] = sm
+		return sm
+	}
+	// ---- the dispatch: the root switch over the opcode, continued through its default clause ----
+	isOpcodeSwitch := func(s *ast.SwitchStmt) bool {
+		if s.Tag == nil {
+			return false
+		}
+		t := info.TypeOf(s.Tag)
+		return t != nil && types.Identical(t, opT)
+	}
+	type clause struct {
+		cc *ast.CaseClause
+	}
+	clauses := map[string]*ast.CaseClause{}
+	clauseRecv := map[*ast.CaseClause]types.Object{}
+	var collect func(fdecl *ast.FuncDecl, depth int)
+	collect = func(fdecl *ast.FuncDecl, depth int) {
+		var sw *ast.SwitchStmt
+		best := 0
+		ast.Inspect(fdecl.Body, func(n ast.Node) bool {
+			if s, ok := n.(*ast.SwitchStmt); ok && isOpcodeSwitch(s) {
+				cnt := 0
+				for _, cl := range s.Body.List {
+					cnt += len(cl.(*ast.CaseClause).List)
+				}
+				if cnt > best {
+					sw, best = s, cnt
+				}
+			}
+			return true
+		})
+		if sw == nil {
+			return
+		}
+		for _, cl := range sw.Body.List {
+			cc := cl.(*ast.CaseClause)
+			if cc.List == nil {
+				// split dispatch: default hands the instruction to another dispatcher
+				if depth < 3 {
+					for _, stmt := range cc.Body {
+						ast.Inspect(stmt, func(n ast.Node) bool {
+							if call, ok := n.(*ast.CallExpr); ok {
+								if g := CalleeOf(info, call); g != nil && decl[g] != nil && g != info.Defs[fdecl.Name] {
+									collect(decl[g], depth+1)
+								}
+							}
+							return true
+						})
+					}
+				}
+				continue
+			}
+			for _, e := range cc.List {
+				if k := ConstOf(info, e); k != nil {
+					if _, dup := clauses[k.Name()]; !dup {
+						clauses[k.Name()] = cc
+						clauseRecv[cc] = recvOf(fdecl)
+					}
+				}
+			}
+		}
+	}
+	collect(fd, 0)
+	if len(clauses) < 20 {
+		fatalf("anchor unresolved: the VM's dispatch over compiler.Opcode (found %d opcode clauses)", len(clauses))
+	}
+	out := map[string]vmEffect{}
+	bodyMemo := map[*ast.CaseClause]*summ{}
+	for name, cc := range clauses {
+		sm := bodyMemo[cc]
+		if sm == nil {
+			sm = walkBody(&ast.BlockStmt{List: cc.Body}, clauseRecv[cc], 0)
+			bodyMemo[cc] = sm
+		}
 		eff := vmEffect{ok: true, hasCase: true}
 		seen := map[string]bool{}
-		for i, r := range results {
+		for i, r := range sm.variants {
 			v := fmt.Sprintf("%+d", r.h)
 			if r.loop != 0 {
 				v += fmt.Sprintf("%+d·argc", r.loop)
@@ -287,21 +464,43 @@ func emVMEffects(c *Ctx) map[string]vmEffect {
 			eff.ok = false
 			eff.detail = "normal paths have different stack effects: " + strings.Join(eff.variants, " vs ")
 		}
-		if len(results) == 0 {
+		if len(sm.variants) == 0 {
 			eff.ok = false
 			eff.detail = "no normally completing path"
 		}
-		if w.Overflow || len(w.Unsupported) > 0 {
+		if sm.bad != "" {
 			eff.ok = false
-			eff.detail = "path enumeration overflow / unsupported control flow"
+			eff.detail = sm.bad
 		}
-		for _, e := range cc.List {
-			if k := ConstOf(info, e); k != nil {
-				out[k.Name()] = eff
-			}
-		}
+		out[name] = eff
 	}
 	return out
+}
+
+// emAlwaysPanics: an expression statement calling a function of the package every path of which panics.
+func emAlwaysPanics(info *types.Info, decl map[*types.Func]*ast.FuncDecl, s ast.Stmt) bool {
+	es, ok := s.(*ast.ExprStmt)
+	if !ok {
+		return false
+	}
+	call, ok := es.X.(*ast.CallExpr)
+	if !ok {
+		return false
+	}
+	fn := CalleeOf(info, call)
+	d := decl[fn]
+	if fn == nil || d == nil || len(d.Body.List) == 0 {
+		return false
+	}
+	// conservative: the body's last statement is a panic and it has no return statement
+	hasRet := false
+	ast.Inspect(d.Body, func(n ast.Node) bool {
+		if _, ok := n.(*ast.ReturnStmt); ok {
+			hasRet = true
+		}
+		return true
+	})
+	return !hasRet && IsPanicCall(info, d.Body.List[len(d.Body.List)-1])
 }
 
 // ---- emitter state ----
